@@ -48,6 +48,13 @@ func (c *context) ParseGo() bool {
 		return false
 	}
 
+	if len(pkgs) == 0 {
+		c.Errs.GeneralErrorf(
+			"could not load the Go package in %v (is the directory part of a module?)",
+			c.Dir)
+		return false
+	}
+
 	c.GoPackagePath = pkgs[0].PkgPath
 
 	if len(pkgs[0].Errors) != 0 {
